@@ -949,7 +949,8 @@ theorem mkChain_wf (a b : Rep) (ha : a.wf) (hb : b.wf) :
     | .left => (den b).len = some 0
     | .right => (den a).len = some 0
     | .err _ => ((den a).len = none ∧ (den b).len ≠ some 0) ∨
-        (∃ n m, (den a).len = some n ∧ (den b).len = some m ∧ USIZE ≤ n + m)
+        (∃ n m, (den a).len = some n ∧ (den b).len = some m ∧ USIZE ≤ n + m) ∨
+        (∃ n, (den a).len = some n ∧ (den b).len = none ∧ USIZE ≤ n + b.finPrefix)
     | .panic _ => False := by
   unfold Rep.mkChain
   rcases len_cases a ha with ⟨n, a1, a2⟩ | ⟨a1, a2⟩ <;> rcases len_cases b hb with ⟨m, b1, b2⟩ | ⟨b1, b2⟩
@@ -962,7 +963,7 @@ theorem mkChain_wf (a b : Rep) (ha : a.wf) (hb : b.wf) :
     · simp only [hn, hm, decide_false, Bool.false_eq_true, if_false]
       by_cases hov : n + m ≥ USIZE
       · simp only [hov, decide_true, if_true]
-        right; exact ⟨n, m, a2, b2, hov⟩
+        right; left; exact ⟨n, m, a2, b2, hov⟩
       · simp only [hov, decide_false, Bool.false_eq_true, if_false]
         exact chainOf_wf a b n ⟨ha, hb, a1, by omega, by rw [b1]; simp only []; omega⟩
   · rw [a1, b1]
@@ -970,7 +971,11 @@ theorem mkChain_wf (a b : Rep) (ha : a.wf) (hb : b.wf) :
     by_cases hn : n = 0
     · simp [hn, a2]
     · simp only [hn, decide_false, Bool.false_eq_true, if_false]
-      exact chainOf_wf a b n ⟨ha, hb, a1, by omega, by rw [b1]; trivial⟩
+      by_cases hov : n + b.finPrefix ≥ USIZE
+      · simp only [hov, decide_true, if_true]
+        right; right; exact ⟨n, a2, b2, hov⟩
+      · simp only [hov, decide_false, Bool.false_eq_true, if_false]
+        exact chainOf_wf a b n ⟨ha, hb, a1, by omega, by rw [b1]; trivial⟩
   · rw [a1, b1]
     simp only [isEmpty_inf a a1, isEmpty_fin b m b1]
     by_cases hm : m = 0
@@ -1188,5 +1193,99 @@ def listResult2 (a b : Res (List Val)) (k : List Val → List Val → List Val) 
 theorem liftList2_eq (a b : Res (List Val)) (k : List Val → List Val → List Val) :
     liftList a (fun pre => liftList b fun post => .seq (Rep.mkArray (k pre post))) = listResult2 a b k := by
   cases a <;> cases b <;> rfl
+
+
+/-! ## the library compositions written in xray -/
+theorem valueToIdx_nat (n k : Nat) (hk : k < n) (hn : n < USIZE) : valueToIdx (.fin n) (k : Int) = .ok k := by
+  unfold valueToIdx USIZE at *
+  simp only []
+  repeat' split
+  all_goals first | (exfalso; omega) | (congr 1)
+
+theorem rangeLen_unit (n : Nat) (hn : 0 < n) : rangeLen 0 n 1 = .fin n := by
+  have h1 : (0 : Int) < 1 ∧ (0 : Int) < n := by omega
+  simp only [rangeLen, h1, and_self, if_true]
+  congr 1
+  simp only [Int.ediv_one]
+  omega
+
+theorem rangeB_unit (n : Nat) (hin : inI64 (n : Int) = true) :
+    rangeB [(n : Int)] = if n = 0 then .seq .empty else .seq (.range 0 n 1) := by
+  unfold rangeB
+  simp only [hin, if_true]
+  have h1 : ¬ ((1 : Int) = 0) := by omega
+  simp only [h1, if_false]
+  by_cases h0 : n = 0
+  · have : ((0 : Int) < 1 ∧ (0 : Int) ≥ (n : Int)) ∨ ((1 : Int) < 0 ∧ (0 : Int) ≤ (n : Int)) := by left; omega
+    subst h0; simp only [this, if_true]
+  · have : ¬ (((0 : Int) < 1 ∧ (0 : Int) ≥ (n : Int)) ∨ ((1 : Int) < 0 ∧ (0 : Int) ≤ (n : Int))) := by omega
+    simp only [this, if_false, h0]
+
+/-- `reverse` on a finite sequence of length `n < 2^63`: a lazy sequence of the same length whose `i`-th element
+is element `n-1-i` of the original list -/
+theorem reverse_spec (r : Rep) (h : r.wf) (n : Nat) (hn : (den r).len = some n) (hb : (n : Int) < 9223372036854775808) :
+    ∃ s, reverseB r = .seq s ∧ s.wf ∧ (den s).len = some n ∧
+      ∀ i, i < n → (den s).el i = (den r).el (n - 1 - i) := by
+  have hl : r.len = .fin n := by rw [len_den r h, hn]; rfl
+  have hin : inI64 (n : Int) = true := by simp [inI64]; omega
+  by_cases h0 : n = 0
+  · subst h0
+    refine ⟨.mapGet .empty r (.rev (0 : Nat)), ?_, ?_, by simp [den, Sem.nil], fun i hi => absurd hi (by omega)⟩
+    · have e := rangeB_unit 0 hin
+      rw [if_pos rfl] at e
+      unfold reverseB; rw [hl]
+      show reverseOf r 0 (rangeB [((0 : Nat) : Int)]) = _
+      rw [e]; rfl
+    · simp [Rep.wf, h]
+  · have hpos : 0 < n := by omega
+    refine ⟨.mapGet (.range 0 n 1) r (.rev n), ?_, ?_, ?_, ?_⟩
+    · have e := rangeB_unit n hin
+      rw [if_neg h0] at e
+      unfold reverseB; rw [hl]
+      show reverseOf r n (rangeB [(n : Int)]) = _
+      rw [e]; rfl
+    · simp only [Rep.wf]
+      exact ⟨⟨rfl, hin, rfl, Or.inl ⟨by omega, by omega⟩⟩, h⟩
+    · simp [den, rangeLen_unit n hpos, lenOpt]
+    · intro i hi
+      simp only [den, elemGet, IFn.app, Sem.index, hn, toLen]
+      have e : (0 : Int) + (i : Int) * 1 = i := by omega
+      have e2 : (n : Int) - 1 - (i : Int) = ((n - 1 - i : Nat) : Int) := by omega
+      rw [e, e2, valueToIdx_nat n (n - 1 - i) (by omega) (by unfold USIZE; omega)]
+
+theorem fmod_nat (i n : Nat) (hn : 0 < n) : Int.fmod (i : Int) (n : Int) = ((i % n : Nat) : Int) := by
+  rw [Int.fmod_eq_emod_of_nonneg _ (by omega)]
+  exact (Int.natCast_emod i n).symm
+
+/-- `repeat()` of a non-empty finite sequence: an infinite sequence whose `i`-th element is element `i mod n` -/
+theorem repeat_spec (r : Rep) (h : r.wf) (n : Nat) (hn : (den r).len = some n) (hpos : 0 < n) (hb : n < USIZE) :
+    ∃ s, repeatB r = .seq s ∧ s.wf ∧ (den s).len = none ∧ ∀ i, (den s).el i = (den r).el (i % n) := by
+  have hl : r.len = .fin n := by rw [len_den r h, hn]; rfl
+  refine ⟨.mapGet .count r (.mod n), by unfold repeatB; rw [hl], by simp [Rep.wf, h], rfl, fun i => ?_⟩
+  have hne : ¬ ((n : Int) = 0) := by omega
+  simp only [den, elemGet, IFn.app, hne, if_false, Sem.index, hn, toLen]
+  rw [fmod_nat i n hpos, valueToIdx_nat n (i % n) (Nat.mod_lt _ hpos) hb]
+
+theorem count2_notEmpty (s o : Int) : (count2 s o).isEmpty = false := by
+  simp [count2, Rep.isEmpty, Rep.len]
+
+/-- `enumerate(a, start, offset)` = `count(start, offset).zip(a)`: the empty sequence for an empty `a`, otherwise
+a zip of the same length as `a` whose `i`-th element is the pair `(start + i*offset, a[i])` -/
+theorem enumerate_spec (r : Rep) (h : r.wf) (s o : Int) :
+    (r.isEmpty = true → enumerateB r s o = .seq .empty) ∧
+    (r.isEmpty = false → enumerateB r s o = .seq (.zip [count2 s o, r]) ∧
+      (Rep.zip [count2 s o, r]).wf ∧
+      (den (.zip [count2 s o, r])).len = (den r).len ∧
+      ∀ i, (den (.zip [count2 s o, r])).el i = (match (den r).el i with
+        | .ok v => .ok (.tup [.int (i * o + s), v])
+        | .err m => .err m
+        | .panic m => .panic m)) := by
+  refine ⟨fun he => by simp [enumerateB, zipB, he], fun he => ⟨by simp [enumerateB, zipB, he, count2_notEmpty], ?_, ?_, ?_⟩⟩
+  · simp [Rep.wf, wfAll, count2, h]
+  · simp only [den, denList, Sem.zip, List.map, count2, minOpt]
+    cases (den r).len <;> rfl
+  · intro i
+    simp only [den, denList, Sem.zip, List.map, count2, elemMap, PFn.app, tupAll]
+    cases (den r).el i <;> rfl
 
 end XrayModel.Seq
